@@ -314,6 +314,19 @@ class FnView:
                 if n["op"] == "%":
                     return mk_bin("&", lt_, ("lit", rt_[1] - 1))
                 return mk_bin(">>", lt_, ("lit", rt_[1].bit_length() - 1))
+            UNS = ("u8", "u16", "u32", "u64", "u128", "usize")
+            if n["op"] == "!=" and (n["l"].get("ty") in UNS or n["r"].get("ty") in UNS):
+                # unsigned x != 0  ==  0 < x
+                if rt_ == ("lit", 0):
+                    return mk_bin("<", ("lit", 0), lt_)
+                if lt_ == ("lit", 0):
+                    return mk_bin("<", ("lit", 0), rt_)
+            if n["op"] in (">=", "<=") and (n["l"].get("ty") in UNS or n["r"].get("ty") in UNS):
+                # x >= 1  ==  0 < x
+                if n["op"] == ">=" and rt_ == ("lit", 1):
+                    return mk_bin("<", ("lit", 0), lt_)
+                if n["op"] == "<=" and lt_ == ("lit", 1):
+                    return mk_bin("<", ("lit", 0), rt_)
             return mk_bin(n["op"], lt_, rt_)
         if k == "tup":
             return ("tup",) + tuple(T(x) for x in n.get("es", []))
@@ -334,6 +347,9 @@ class FnView:
             args = [T(a) for a in call_args(n)]
             if name in TRANSPARENT and len(args) >= 1:
                 return args[0]
+            if name in NONZERO_GET and len(args) == 1 and args[0][0] == "variant" and args[0][1] == "Some" \
+                    and args[0][3][0] == "call" and args[0][3][1] in NONZERO_NEW:
+                return args[0][3][2]                             # NonZero::new(x).unwrap().get() == x
             if name.endswith("::max_value") and name.startswith("core::num::") and not args:
                 return ("const", "core::num::MAX")
             if name in MIN_FNS or name in FMIN_FNS:
@@ -360,10 +376,16 @@ class FnView:
                 return ("call", "std::option::Option::unwrap_or", c_[2], b_)     # value selection == unwrap_or
             return ("if", c_, a_, b_)
         if k == "letexpr":
-            return ("iflet", pat_term(n["pat"]), T(n["init"]))
+            it_ = T(n["init"])
+            pt_ = pat_term(n["pat"])
+            if it_[0] == "call" and it_[1] in NONZERO_NEW and len(it_) == 3 and pt_[0] == "ptstruct" \
+                    and pt_[1].endswith("::Some") and len(pt_) == 3 and pt_[2][0] in ("pbind", "_"):
+                return mk_bin("<", ("lit", 0), it_[2])          # NonZero::new(x) is Some  ==  0 < x (unsigned)
+            return ("iflet", pt_, it_)
         if k == "match":
-            return ("match", T(n["e"])) + tuple((pat_term(a["pat"]), T(a["body"]))
-                                               for a in n.get("arms", []))
+            return ("match", T(n["e"])) + tuple(
+                (pat_term(a["pat"]), T(a["body"]) if a.get("guard") is None else ("guarded", T(a["guard"]), T(a["body"])))
+                for a in n.get("arms", []))
         if k == "closure":
             return ("closure", T(n["body"]))
         if k == "try":
@@ -517,7 +539,14 @@ class FnView:
                 # guards outside the closure still hold lexically but not temporally; stop here
                 pass
             cur = a
-        return out
+        return [_strip_not(c, p) for c, p in out]
+
+
+def _strip_not(c, pol):
+    """(`!x`, p) == (x, !p): a negated guard left behind by an early exit reads like the positive test"""
+    while isinstance(c, dict) and c.get("k") == "un" and c.get("op") == "!" and c.get("ty") == "bool":
+        c, pol = c["e"], not pol
+    return c, pol
 
 
 def after_facts(x):
@@ -588,6 +617,10 @@ def lit_term(n):
     if lk == "int" and n.get("ty") in ("f64", "f32"):
         return ("lit", float(v))
     return ("lit", v)
+
+
+NONZERO_NEW = ("std::num::NonZero::new", "core::num::NonZero::new", "core::num::nonzero::NonZero::new")
+NONZERO_GET = ("std::num::NonZero::get", "core::num::NonZero::get", "core::num::nonzero::NonZero::get")
 
 
 def mk_bin(op, l, r):
@@ -1457,7 +1490,11 @@ def sym_paths(fv, root, limit=60000):
                 elif k == "let":
                     p = n["pat"]
                     if p.get("k") == "ptuple" and n.get("init") is not None:
-                        tv = cur(fv.term(n["init"]))
+                        if n["init"].get("k") in ("if", "match", "block") and sp.value is not None:
+                            tv = sp.value           # control expression: the tuple of the branch THIS path took
+                            sp.value = None
+                        else:
+                            tv = cur(fv.term(n["init"]))
                         for i_, sp_ in enumerate(p.get("ps", [])):
                             if sp_.get("k") == "pbind":
                                 comp = tv[1 + i_] if tv[0] == "tup" and i_ < len(tv) - 1 else ("proj", i_, tv)
